@@ -39,21 +39,33 @@ class _LoadAndSave:
     def __init__(self, collection):
         self._collection = collection
 
-    def __enter__(self):
+    def _acquire_locks(self):
+        """Acquire every lock a write to the collection needs, in a fixed order.
+
+        Operations that write without loading first (``reset``, ``clear``) use
+        this directly so that they exclude, and order their locks like, all
+        other writers.
+        """
         self._collection._thread_lock.__enter__()
+
+    def _release_locks(self):
+        self._collection._thread_lock.__exit__(None, None, None)
+
+    def __enter__(self):
+        self._acquire_locks()
         try:
             self._collection._load()
         except BaseException:
             # __exit__ is not called when __enter__ raises, so the lock must
             # be released here or it would stay held forever.
-            self._collection._thread_lock.__exit__(None, None, None)
+            self._release_locks()
             raise
 
     def __exit__(self, exc_type, exc_val, exc_tb):
         try:
             self._collection._save()
         finally:
-            self._collection._thread_lock.__exit__(exc_type, exc_val, exc_tb)
+            self._release_locks()
 
 
 class SyncedCollection(Collection):
